@@ -177,6 +177,7 @@ impl QueryNode {
                 (Ok(time_range), Ok(predicates)) => (time_range, predicates),
                 (Err(e), _) | (_, Err(e))
                     if is_table_not_found_error(&e)
+                        || is_unknown_column_error(&e)
                         || self.engine.metrics_table_is_placeholder() =>
                 {
                     let bootstrap_chunks = self.metadata.list_chunks().await?;
@@ -223,10 +224,31 @@ impl QueryNode {
             // Map metadata-selected chunks into the logical `metrics` table used by SQL.
             // Execute query with or without adaptive indexing while holding a stable
             // `metrics` table binding for this request.
-            let plan = self
+            let plan = match self
                 .engine
                 .plan_with_metrics_table(&chunk_paths, sql)
-                .await?;
+                .await
+            {
+                // The statement planned against the start-up placeholder but names a column
+                // the selected chunks do not carry: learn the columns of the stored chunks,
+                // then bind the selected ones again.
+                Err(e) if is_unknown_column_error(&e) => {
+                    let all_paths: Vec<String> = self
+                        .metadata
+                        .list_chunks()
+                        .await?
+                        .iter()
+                        .map(|chunk| chunk.chunk_path.clone())
+                        .collect();
+                    self.engine
+                        .register_metrics_table_for_chunks(&all_paths)
+                        .await?;
+                    self.engine
+                        .plan_with_metrics_table(&chunk_paths, sql)
+                        .await?
+                }
+                plan => plan?,
+            };
             let results = if let Some(ref controller) = self.adaptive_index_controller {
                 self.engine
                     .execute_plan_with_indexes(plan, tenant_id, controller.clone())
@@ -342,6 +364,15 @@ fn is_table_not_found_error(error: &Error) -> bool {
             let msg = df_error.to_string().to_lowercase();
             msg.contains("table") && msg.contains("not found")
         }
+        _ => false,
+    }
+}
+
+/// The statement names a column the current `metrics` binding does not have. The binding only
+/// knows the columns of chunks this node has queried so far; stored chunks may carry others.
+fn is_unknown_column_error(error: &Error) -> bool {
+    match error {
+        Error::DataFusion(df_error) => df_error.to_string().contains("No field named"),
         _ => false,
     }
 }
